@@ -342,7 +342,7 @@ func main() {
 	extDir := filepath.Join(base, "ext")
 	_ = os.MkdirAll(extDir, 0o755)
 	for _, f := range []string{"schema.json", "defs.json"} {
-		b, _ := os.ReadFile(filepath.Join("/repo/schema", f))
+		b, _ := os.ReadFile(filepath.Join(hx.RepoRoot, "schema", f))
 		_ = os.WriteFile(filepath.Join(extDir, f), b, 0o644)
 	}
 	extSchemaPath = filepath.Join(extDir, "schema.json")
@@ -354,7 +354,9 @@ func main() {
 		step = 3
 	}
 	subcommands := [][]string{{"devices"}, {"devices", "-v", "-o", "json"}, {"devices", "-v", "-o", "yaml"}, {"vendors"}, {"classes"}, {"specs"}, {"specs", "-v"}, {"specs", "vendor1.com"}, {"dirs"}, {"validate"},
-		{"inject", "json", "json", "vendor1.com/cls=x"}, {"inject", "yaml", "", "vendor*/*=*"}, {"inject", "json", "yaml", "vendor1.com/cls=[xy]", "vendor2.org/other=x"}}
+		{"inject", "json", "json", "vendor1.com/cls=x"}, {"inject", "yaml", "", "vendor*/*=*"}, {"inject", "json", "yaml", "vendor1.com/cls=[xy]", "vendor2.org/other=x"},
+		// overlapping patterns: a device matched by several patterns is injected once
+		{"inject", "json", "json", "vendor1.com/cls=*", "vendor1.com/cls=x"}, {"inject", "yaml", "yaml", "vendor*/*=x", "vendor*/*=x", "*/*=*"}}
 	dirLists := [][]string{{"d0", "d1"}, {"d1", "d0"}, {"d1"}, {"d0", "missing", "d1"}}
 	var cases []Case
 	for i := 0; i < total; i += step {
